@@ -242,6 +242,21 @@ CLAIMS = {
                  "prefix of the full output."),
         "ref": "DESIGN.md §4 C17",
     },
+    "C20": {
+        "technique": "Lean 4 theorems: the walker with ignore rules is the walker on the pruned tree (model defined by pruning, so C01/C17 theorems transfer), pruned events = visible events of the whole tree (mutual induction with a hidden flag), docker last-match-wins = fold (induction), option/config/no-override table, verdict depends on the canonical path only + CLI correspondence (hg/docker pattern compilers and upstream search modelled through the regex fragment; git's verdict a snapshot fact from `git check-ignore`) + reference matchers for Mercurial and Docker semantics",
+        "text": ("Theorems for every tree, rule set and depth window: the entries reported with ignore rules are the entries reported "
+                 "without them minus exactly those that are ignored themselves or lie below an ignored directory; with no rule set "
+                 "nothing is removed; a .dockerignore verdict is that of the last matching pattern (D53 fixed), an .hgignore ignores "
+                 "what any pattern matches; option on / `no…` / configuration default resolve as documented; the verdict depends on the "
+                 "entry only through its canonical path, hence not on the spelling of the root. PARTIAL: that the compiled patterns "
+                 "mean what the tools mean is not a theorem — the glob→regex compilers, the search for the ignore file in the ancestors "
+                 "and libgit2 are compared on every run with `git check-ignore` and with reference matchers of Mercurial's and Docker's "
+                 "documented semantics for the generated pattern subset (literal, *.ext, dir/, dir/*.ext, **/name, ?, comments, blanks, "
+                 "exceptions in either order, syntax sections, ^-rooted and unrooted regexps). Not covered: exceptions re-including entries "
+                 "below an excluded directory (the walker never descends there), subinclude, several roots with ignore rules, ignore rules "
+                 "together with `symlinks`. Defects D48–D54, D64, D65 were repaired in /repo."),
+        "ref": "DESIGN.md §4 C20",
+    },
 }
 
 NOT_YET = {}
